@@ -61,6 +61,22 @@ def _m2():
     return cfg
 
 
+def _m2t():
+    """As M2, but trait t1 is not listed in /traits: its code is learned from
+    the server records only (Loader.load_server, add_new=True) and has to
+    survive every later allocations / servers event."""
+    cfg = _m2()
+    cfg['traits'] = ['t2']
+    cfg['events'] = mastercfg.ev(
+        ('app+', 'pl'), ('app+', 't1'), ('app-', 0),
+        ('alloc', 1), ('alloc', 2), ('alloc', 0),
+        ('srv', 's0', 1), ('srv', 's0', 2), ('srv', 's0', 0),
+        ('srv', 's1', 1), ('srv', 's1', 0),
+        ('noop',), ('restart',),
+    )
+    return cfg
+
+
 def _late():
     """Late presence notifications: a server registers and dies again before
     the master handles the first notification."""
@@ -81,9 +97,11 @@ def configs(ctx):
     if ctx.quick:
         return [('K2', _k2(), 4, 1), ('K5', _k5(), 5, 0),
                 ('M2', _m2(), 3, 0, _masterprop.MasterSpec),
+                ('M2t', _m2t(), 3, 0, _masterprop.MasterSpec),
                 ('M2-late', _late(), 4, 2, _masterprop.MasterSpec)]
     return [('K2', _k2(), 6, 1), ('K5', _k5(), 7, 0),
             ('M2', _m2(), 5, 1, _masterprop.MasterSpec),
+            ('M2t', _m2t(), 5, 1, _masterprop.MasterSpec),
             ('M2-late', _late(), 6, 2, _masterprop.MasterSpec)]
 
 
